@@ -530,6 +530,7 @@ pub fn run(tier: Tier) {
     environments_part::<V1024>(&mut ctx, tier, &k1024);
     let sh = Arc::new(Shared { k512, k1024, msgs: messages() });
     histories_part(&mut ctx, tier, sh);
+    crate::history::differential(&mut ctx, "history_two_keys_signing", &["S512", "s512", "S1024", "s1024"], 2, &|_op, digest| { let _ = digest; if digest.contains("verifies=false") { Some("a signature does not verify".to_string()) } else { None } });
     crate::history::differential(&mut ctx, "history_differential_signing", &["S512", "S1024", "K512", "K1024", "D512"], 2, &|_op, digest| {
         if digest.contains("verifies=false") {
             Some("a signature does not verify".to_string())
